@@ -48,6 +48,29 @@ func (w *World) intBoundD(v ssa.Value, at ssa.Instruction, d int) (lo, hi int64,
 	case *ssa.Parameter:
 		if iv, okE := w.paramEnv[x]; okE {
 			lo, hi, known = max64(lo, iv[0]), min64(hi, iv[1]), true
+		} else if pf := x.Parent(); pf != nil && pf.Parent() != nil && d < 6 {
+			// parameter of a function literal: what its call sites (all in the enclosing function) pass
+			idx := paramIndex(pf, x)
+			cs := w.callersOfCached(pf)
+			if idx >= 0 && len(cs) > 0 {
+				var jl, jh int64 = inf, -inf
+				all := true
+				for _, c := range cs {
+					if idx >= len(c.Common().Args) || c.Parent() != pf.Parent() {
+						all = false
+						break
+					}
+					l, h, k := w.intBoundD(c.Common().Args[idx], c.(ssa.Instruction), d+3)
+					if !k {
+						all = false
+						break
+					}
+					jl, jh = min64(jl, l), max64(jh, h)
+				}
+				if all {
+					lo, hi, known = max64(lo, jl), min64(hi, jh), true
+				}
+			}
 		}
 	case *ssa.UnOp:
 		if x.Op == token.MUL {
